@@ -66,6 +66,10 @@ func rulesC03(c *Ctx) {
 	// "recorded successes and failures": what the breaker records is decided by the handle conditions as registered
 	// (RecordError classifies (zero, err): a result condition that ignored the error would match every recorded error)
 	c12Registrars(c)
+	// … and RecordResult / RecordError put an outcome through the shared classification table before they count it
+	c12IsFailure(c)
+	c12AnyOf(c)
+	c12Unwrap(c)
 	buildersStore(c, "circuitbreaker")
 	delegatingBuilders(c, "circuitbreaker")
 	witnessRules(c, "C03")
